@@ -248,6 +248,10 @@ func (x *Exec) typeInv(v Term, t types.Type) Term {
 		return And(fs...)
 	case *types.Map:
 		c, _ := x.W.Field(v, "card")
+		if kb, ok := u.Key().Underlying().(*types.Basic); ok && kb.Info()&types.IsInteger != 0 {
+			// a map keyed by a machine integer has at most 2^64 keys
+			return And(Cmp(">=", c, IntLit(0)), Cmp("<=", c, T("18446744073709551616", SInt)))
+		}
 		return Cmp(">=", c, IntLit(0))
 	}
 	return True
@@ -1375,6 +1379,9 @@ func (x *Exec) execLoopCommon(node ast.Node, bodyPos token.Pos, env *Env, label 
 	var variant0 Term
 	if lc != nil && lc.Decreases != nil {
 		variant0 = loopScope(head).Eval(lc.Decreases.Expr)
+	} else if _, isFor := node.(*ast.ForStmt); isFor && x.cx.fc != nil && x.quiet == 0 && needsTermination(x.cx.fc) {
+		// C02 units: a for-loop without a variant is an undischarged termination obligation
+		x.W.Oblige(x.oblName(tag+"/variant:missing", ""), "variant", env.pc, False)
 	}
 	// 4. guard
 	fr := &frame{kind: "loop", label: label}
@@ -1865,4 +1872,14 @@ func (x *Exec) dynValue(v Term, t types.Type) Term {
 func isUntypedNil(t types.Type) bool {
 	b, ok := t.(*types.Basic)
 	return ok && b.Kind() == types.UntypedNil
+}
+
+// needsTermination: units claimed for the no-hang property must give a variant for every for-loop.
+func needsTermination(fc *FuncContract) bool {
+	for _, p := range fc.Props {
+		if p == "C02" {
+			return true
+		}
+	}
+	return false
 }
